@@ -15,7 +15,16 @@ BASE = os.path.join(VERIF, "seeded")
 
 def main():
     old = {}
-    for spec in sys.argv[1:]:
+    own = {}
+    argv = list(sys.argv[1:])
+    if "--own" in argv:
+        i = argv.index("--own")
+        for line in open(argv[i + 1]):
+            m = re.match(r"OWN (\S+) (C\d+) exit=(\d*)\s*(.*)", line.strip())
+            if m:
+                own[m.group(1)] = {"quick_exit": int(m.group(3) or 2), "signatures": [x.strip() for x in re.findall(r"signature: ([^;]+);", m.group(4))]}
+        del argv[i : i + 2]
+    for spec in argv:
         tag, commit, log = spec.split(":", 2)
         for line in open(log):
             m = re.match(r"OLD (C\d+)/([AB]) (C\d+) exit=(\d+)\s*(.*)", line.strip())
@@ -32,12 +41,17 @@ def main():
             r = old[name]["results"]
             m["before_strengthening"] = {"verif_commit": old[name]["commit"], "results": r, "caught": sorted(c for c, x in r.items() if x["quick_exit"] == 1)}
             json.dump(m, open(mp, "w"), indent=1)
+        if name in own:
+            m["own_check"] = own[name]
+            json.dump(m, open(mp, "w"), indent=1)
         sigs = "; ".join(f"{c}: {', '.join(r['signatures'][:2])}" for c, r in sorted(m["check_results"].items()) if r["quick_exit"] == 1)
         if "before_strengthening" in m:
             before = ", ".join(m["before_strengthening"]["caught"]) or "missed"
         else:
             before = "missed" if m.get("strengthening") else "same"
-        rows.append((name, m["property"], before, ", ".join(m["caught_by"]) or "MISSED", sigs, m.get("strengthening")))
+        oc = m.get("own_check")
+        own_txt = "-" if oc is None else ("yes: " + ", ".join(oc["signatures"][:2]) if oc["quick_exit"] == 1 else ("no" if oc["quick_exit"] == 0 else "harness error"))
+        rows.append((name, m["property"], before, ", ".join(m["caught_by"]) or "MISSED", sigs, m.get("strengthening"), own_txt))
     r1 = [r for r in rows if re.search(r"-[AB]$", r[0])]
     r2 = [r for r in rows if re.search(r"-H[AB]$", r[0])]
     r3 = [r for r in rows if re.search(r"-R[AB]$", r[0])]
@@ -88,11 +102,11 @@ def main():
             for r in rr:
                 if r[5]:
                     f.write(f"* **{r[0]}**: {r[5]}\n")
-        f.write("\n## All kept changes\n\n| change | property | before strengthening | caught by now (quick tier) | signatures |\n|--------|----------|----------------------|----------------------------|------------|\n")
+        f.write("\n## All kept changes\n\n| change | property | before strengthening | caught by (quick tier, as of its round) | signatures | own check (current quick tier) |\n|--------|----------|----------------------|----------------------------|------------|------------|\n")
         for r in rows:
-            f.write(f"| {r[0]} | {r[1]} | {r[2]} | {r[3]} | {r[4][:260]} |\n")
+            f.write(f"| {r[0]} | {r[1]} | {r[2]} | {r[3]} | {r[4][:260]} | {r[6][:160]} |\n")
     for label, rr in (("round1", r1), ("round2", r2), ("round3", r3), ("round4", r4)):
-        print(label, len(rr), "before:", sum(1 for r in rr if r[2] != "missed"), "now:", sum(1 for r in rr if r[3] != "MISSED"))
+        print(label, len(rr), "own:", sum(1 for r in rr if r[6].startswith("yes")), "before:", sum(1 for r in rr if r[2] != "missed"), "now:", sum(1 for r in rr if r[3] != "MISSED"))
 
 
 if __name__ == "__main__":
